@@ -30,7 +30,7 @@ def _c12():
 def run(ctx):
     ctx.level = "proof"
     c12 = _c12()
-    status = vlib.proof_status(PID, extra_targets=["C12/Extract.v"])
+    status = vlib.proof_status(PID, extra_targets=["C12/Extract.v", "C12/VmCheck.v"])
     ctx.proof_gate(status)
     drv = c12.build_driver()
     exe, blog = c12.build_harness(ctx)
@@ -161,6 +161,7 @@ def run(ctx):
             "Coq 8.16.1 kernel (coqc; coqchk in the thorough tier)",
             ("axioms: none (Print Assumptions: Closed under the global context)" if not status["axioms"] else "axioms: " + ", ".join(status["axioms"])),
             "extraction (ExtrOcamlBasic, ExtrOcamlString) + OCaml 4.13.1 + props/C12/driver/c12_driver.ml",
+            "thorough tier: a sample of the inputs is re-checked by Eval vm_compute inside Coq (coq/C12/VmCheck.v, props/C12/vmcheck.py): for that sample extraction, OCaml and the driver are not trusted",
             "Go harness props/C12/harness (mutators, guarded runner with recover + 20 s watchdog, projection) and the shared invariant evaluators props/common/vinv",
             "the protobuf decoders (wire/JSON/text) are not modelled: the loader model starts at the decoded message tree; absence of panics inside the decoders is observed by the run only",
             "absence of Go panics is established by exploration, not by the theorem (the model is total by construction)",
@@ -171,6 +172,11 @@ def run(ctx):
         "which of several failing checks is reported (Go map iteration order) is not compared, only error vs success and the loaded network",
         "inputs whose flattened multiplexer tree exceeds 6000 signals (group count x fixed members) are judged on the Go side only: the list based model is quadratic there (count in coverage.model_skipped_above_cost_bound)",
     ]
+    if ctx.tier == "thorough" or os.environ.get("VERIF_VMCHECK"):
+        spec = importlib.util.spec_from_file_location("c12_vmcheck", os.path.join(C12, "vmcheck.py"))
+        vm = importlib.util.module_from_spec(spec)
+        spec.loader.exec_module(vm)
+        vm.cross_check(ctx, PID, allcases, want=150, need_n=False, max_bytes=60000)
     if ctx.tier == "thorough":
         ok, chk = vlib.coqchk(PID)
         ctx.coverage["coqchk"] = "ok" if ok else "FAILED"
